@@ -473,11 +473,7 @@ func (pConn *PFCPConn) handleSessionDeletionRequest(msg message.Message) (messag
 		return sendError(ErrWriteToDatapath)
 	}
 
-	if err := releaseAllocatedIPs(upf.ippool, &session); err != nil {
-		return sendError(ErrOperationFailedWithReason("session IP dealloc", err.Error()))
-	}
-
-	/* delete sessionRecord */
+	/* delete sessionRecord and release the UE IP and F-TEIDs allocated for it */
 	pConn.RemoveSession(session)
 
 	// Build response message
